@@ -92,7 +92,8 @@ Qed.
 Inductive basis := BArray | BCardinal | BChebyshev.
 Inductive pop :=
 | PNew (b : list basis)              (* Polynomial(coefficients, grid, basis, ...) *)
-| PChangeBasis (b : list basis)      (* .changeBasis(b): ends with self.basis = b *)
+| PChangeBasis (b : list basis)      (* .changeBasis(b): ends with self.basis = b, an Array
+                                        axis keeping its label *)
 | PIntegrate (axes : list nat).      (* .integrate(axes, weight) *)
 
 Definition basis_eqb (a b : basis) : bool :=
@@ -113,6 +114,12 @@ Variable inb : bool -> basis -> basis.
 Definition integ_basis (axes : list nat) (cur : list basis) : list basis :=
   map (fun p => inb (existsb (Nat.eqb (fst p)) axes) (snd p))
       (combine (seq 0 (List.length cur)) cur).
+(** Polynomial.changeBasis: the new labels, except that an 'Array' axis stays 'Array' *)
+Definition keep_array (cur b : list basis) : list basis :=
+  match cur with
+  | [] => b
+  | _ => map (fun p => match fst p with BArray => BArray | _ => snd p end) (combine cur b)
+  end.
 Definition remaining (axes : list nat) (cur : list basis) : list basis :=
   map snd (filter (fun p => negb (existsb (Nat.eqb (fst p)) axes))
                   (combine (seq 0 (List.length cur)) cur)).
@@ -121,7 +128,7 @@ Fixpoint at_multiply (ops : list pop) (cur : list basis) : list (list basis) :=
   match ops with
   | [] => []
   | PNew b :: r => at_multiply r b
-  | PChangeBasis b :: r => at_multiply r b
+  | PChangeBasis b :: r => at_multiply r (keep_array cur b)
   | PIntegrate axes :: r =>
       let c := integ_basis axes cur in c :: at_multiply r c
   end.
@@ -129,7 +136,7 @@ Fixpoint results (ops : list pop) (cur : list basis) : list (list basis) :=
   match ops with
   | [] => []
   | PNew b :: r => results r b
-  | PChangeBasis b :: r => results r b
+  | PChangeBasis b :: r => results r (keep_array cur b)
   | PIntegrate axes :: r =>
       let c := integ_basis axes cur in remaining axes c :: results r c
   end.
@@ -138,7 +145,7 @@ Fixpoint trace (ops : list pop) (cur : list basis) : list (list basis) :=
   match ops with
   | [] => []
   | PNew b :: r => b :: trace r b
-  | PChangeBasis b :: r => b :: trace r b
+  | PChangeBasis b :: r => keep_array cur b :: trace r (keep_array cur b)
   | PIntegrate axes :: r => let c := integ_basis axes cur in c :: trace r c
   end.
 Definition all_nodal (l : list (list basis)) : bool := forallb (forallb nodal) l.
@@ -174,6 +181,57 @@ Proof.
     + split; [lra|split; [|exact I]].
       apply Rmult_lt_0_compat; [lra|apply Rinv_0_lt_compat; lra].
     + field. repeat split; nra.
+Qed.
+
+Lemma atanh_R_zero r : -1 < r < 1 -> atanh_R r = 0 -> r = 0.
+Proof.
+  intros H E. rewrite atanh_R_inside in E by exact H.
+  assert (Hp : 0 < (1 + r) / (1 - r)) by (apply Rdiv_lt_0_compat; lra).
+  assert (El : ln ((1 + r) / (1 - r)) = ln 1) by (rewrite ln_1; lra).
+  apply ln_inv in El; [|exact Hp|lra].
+  assert (1 + r = 1 - r).
+  { replace (1 + r) with ((1 + r) / (1 - r) * (1 - r)) by (field; lra). rewrite El. ring. }
+  lra.
+Qed.
+
+(** interior Gauss-Lobatto nodes -cos(i pi/N) are inside (-1,1), and for ODD N none is 0 *)
+Lemma lobatto_node_inside N i : (0 < i < N)%nat -> -1 < - cos (INR i * PI / INR N) < 1.
+Proof.
+  intros H. assert (HN : 0 < INR N) by (apply lt_0_INR; lia).
+  assert (Hi : 0 < INR i) by (apply lt_0_INR; lia).
+  assert (HiN : INR i < INR N) by (apply lt_INR; lia).
+  pose proof PI_RGT_0 as Hpi.
+  set (x := INR i * PI / INR N).
+  assert (H0 : 0 < x) by (unfold x; apply Rdiv_lt_0_compat; [nra|lra]).
+  assert (H1 : x < PI).
+  { unfold x. apply (Rmult_lt_reg_r (INR N)); [lra|].
+    replace (INR i * PI / INR N * INR N) with (INR i * PI) by (field; lra). nra. }
+  pose proof (sin_gt_0 x H0 H1) as Hs. pose proof (sin2_cos2 x) as Hq. unfold Rsqr in Hq.
+  split; nra.
+Qed.
+Lemma lobatto_node_nonzero k i : (0 < i < 2 * k + 1)%nat ->
+  - cos (INR i * PI / INR (2 * k + 1)) <> 0.
+Proof.
+  intros H. set (N := (2 * k + 1)%nat) in *.
+  assert (HN : 0 < INR N) by (apply lt_0_INR; lia).
+  pose proof PI_RGT_0 as Hpi.
+  set (x := INR i * PI / INR N).
+  assert (H0 : 0 < x).
+  { unfold x. apply Rdiv_lt_0_compat; [|lra]. assert (0 < INR i) by (apply lt_0_INR; lia). nra. }
+  assert (H1 : x < PI).
+  { unfold x. apply (Rmult_lt_reg_r (INR N)); [lra|].
+    replace (INR i * PI / INR N * INR N) with (INR i * PI) by (field; lra).
+    assert (INR i < INR N) by (apply lt_INR; lia). nra. }
+  destruct (Rtotal_order x (PI / 2)) as [Hl | [He | Hg]].
+  - pose proof (cos_gt_0 x). lra.
+  - exfalso. unfold x in He.
+    assert (E2 : 2 * INR i = INR N).
+    { apply (Rmult_eq_reg_r (PI / (2 * INR N))); [|apply Rgt_not_eq, Rdiv_lt_0_compat; lra].
+      replace (2 * INR i * (PI / (2 * INR N))) with (INR i * PI / INR N) by (field; lra).
+      rewrite He. field. lra. }
+    replace (2 * INR i) with (INR (2 * i)) in E2 by (rewrite mult_INR; cbn [INR]; ring).
+    apply INR_eq in E2. unfold N in E2. lia.
+  - pose proof (cos_lt_0 x). lra.
 Qed.
 
 Lemma pzmap_is_derive T r : -1 < r < 1 ->
